@@ -20,7 +20,7 @@ class _TickArithmetic:
             days = (ticks >> 14) // 52734375
             tick_of_day = ticks - days * PyodaConstants.TICKS_PER_DAY
         else:
-            days = _towards_zero_division(ticks + 1, PyodaConstants.TICKS_PER_DAY) - 1
+            days = -((-ticks - 1) // PyodaConstants.TICKS_PER_DAY) - 1
             tick_of_day = ticks - (days + 1) * PyodaConstants.TICKS_PER_DAY + PyodaConstants.TICKS_PER_DAY
 
         return days, tick_of_day
